@@ -286,6 +286,9 @@ func c06StripFact(f *ens.Fact) *ens.Fact {
 	if f.Sub != nil {
 		nf.Sub = c06StripFact(f.Sub)
 	}
+	if f.If != nil {
+		nf.If = c06StripFact(f.If)
+	}
 	return nf
 }
 
@@ -572,6 +575,9 @@ func (b *c06Builder) build(f *ssa.Function) *c06View {
 func (b *c06Builder) factListRaw(fs ens.FactSet, drop, inl map[string]bool) string {
 	var out []string
 	for _, f := range fs {
+		if f.Kind == "when" {
+			continue // bookkeeping of the merge logic, not a property of the path
+		}
 		f = c06StripFact(f)
 		raw := f.Key()
 		skip := false
